@@ -151,6 +151,7 @@ namespace vf
 
         void hash_into(Hasher& h) const
         {
+            h.str(grid_name);
             h.pod(rows);
             h.pod(cols);
             h.pod(dy);
